@@ -307,22 +307,22 @@ impl Debugger {
 
 //@fn src/debugger/mod.rs "impl Debugger" add_address_offset ret=r props=C13,C17
         requires dbg_wf(*self),
-        ensures r == offs_spec(self.asm_source.orig, address as int, offset),
+        ensures offs_ok(self.asm_source.orig, address as int, offset, r),
 //@end
 
 //@fn src/debugger/mod.rs "impl Debugger" resolve_pc_offset ret=r props=C13
         requires dbg_wf(*self),
-        ensures r == offs_spec(self.asm_source.orig, pc as int, offset),
+        ensures offs_ok(self.asm_source.orig, pc as int, offset, r),
 //@end
 
 //@fn src/debugger/mod.rs "impl Debugger" resolve_label ret=r props=C13,C17
         requires dbg_wf(*self),
-        ensures r == resolve_spec(self.asm_source.orig, 0, MemoryLocation::Label(*label)),
+        ensures resolve_ok(self.asm_source.orig, 0, MemoryLocation::Label(*label), r),
 //@end
 
 //@fn src/debugger/mod.rs "impl Debugger" resolve_location ret=r props=C13,C17
         requires dbg_wf(*self),
-        ensures r == resolve_spec(self.asm_source.orig, state.pc, *location),
+        ensures resolve_ok(self.asm_source.orig, state.pc, *location, r),
 //@end
 }
 
